@@ -636,6 +636,11 @@ class PhaseField(_Simu):
         iter["convIter"] = self.__convIter
 
         if self.phaseFieldModel.solver == self.phaseFieldModel.SolverType.History:
+            if not self.__updatedDamage:
+                # the displacement is newer than the last damage assembly (convOption 0 or 3)
+                # the history field must hold psi+ of the saved displacement
+                for groupElem in self.mesh.Get_list_groupElem():
+                    self.__Calc_psiPlus_e_pg(groupElem)
             # update old history field for next resolution
             self.__old_psiP_e_pg = self.__psiP_e_pg.copy()
             # the history field belongs to the iteration. It is sized by the elements, so it is kept in a
